@@ -212,7 +212,9 @@ def relOne (j : Json) : Except String Json := do
       let key ← (a.getD 0 Json.null).getStr?
       let t ← parseOptTy (a.getD 1 Json.null)
       pure (key, t))
-    return Json.arr ((checkedProp raw tys).map (fun p => Json.arr #[Json.str p.1, Json.str p.2])).toArray
+    let one := tys.filterMap (fun p => (attachOne raw p).raw.map (fun v => (p.1, v.digest)))
+    let pj (l : List (String × String)) : Json := Json.arr (l.map (fun p => Json.arr #[Json.str p.1, Json.str p.2])).toArray
+    return Json.mkObj [("checked", pj (checkedProp raw tys)), ("one", pj one)]
   | _ => throw "bad relation request"
 
 def handleRel (reqs : Array Json) : Json :=
@@ -258,6 +260,24 @@ def handle (req : Json) : Json :=
         | .error _ => pure [("vp", Json.str "error")]
         | .ok outs => pure [("vp", Json.arr (outs.map (fun (o : OutVar) =>
             Json.arr #[Json.str o.key, otyJ o.ty, match o.val with | none => Json.null | some v => Json.str v])).toArray)]
+      | _, _ => pure []
+    -- round 10: every attached ndarray value (element type, shape) against the type `construct` reports
+    let fitExtra ← match (req.getObjVal? "value_facts").toOption, inferJ with
+      | some (.arr fs), .arr _ => do
+        let ans ← parseInfer inferJ
+        match construct (fun _ => ans) c with
+        | .error _ => pure []
+        | .ok tys => do
+          let l ← fs.toList.mapM (fun (f : Json) => do
+            let a ← f.getArr?
+            let k ← (a.getD 0 Json.null).getStr?
+            let e ← (a.getD 1 Json.null).getNat?
+            let vs : List Nat ← fromJson? (a.getD 2 Json.null)
+            let fit := match (tys.find? (fun (p : String × Option Ty) => p.1 == k)).bind (fun p => p.2) with
+              | some t => propCheck e vs t
+              | none => false
+            pure (Json.arr #[Json.str k, toJson fit]))
+          pure [("values_fit", Json.arr l.toArray)]
       | _, _ => pure []
     -- the supplements' own rules on top of the observed standard answer
     let tyList (j : Json) : Except String (List (Option Ty)) := do
@@ -336,7 +356,7 @@ def handle (req : Json) : Json :=
         | some e => pure [("ml_onnx", toJson (codeOfElem (MLOnnx.onnxMlElem opn e)))]
         | none => pure []
       | none => pure []
-    return Json.mkObj (base ++ extra ++ vpExtra ++ suppExtra ++ protoExtra ++ formalsExtra ++ mlExtra)) with
+    return Json.mkObj (base ++ extra ++ vpExtra ++ fitExtra ++ suppExtra ++ protoExtra ++ formalsExtra ++ mlExtra)) with
   | .ok j => j
   | .error e => Json.mkObj [("error", e)]
 
